@@ -96,19 +96,15 @@ func tokenizeStream(src io.Reader, normalize bool, dict *dictionary, updateDict 
 
 	var doc indexedDocument
 
-	isEOF := func(in error) bool {
-		return in == io.EOF || in == io.ErrUnexpectedEOF
-	}
-
 	// Read out the stream in chunks
 	for {
 		// Fill up the buffer with bytes to extract runes from
 		// idx is offset to hold any bytes left over from previous reads
-		n, err := io.ReadFull(src, rbuf[idx:])
+		n, err := fill(src, rbuf[idx:])
 		// end is the number of valid bytes in the buffer. What lies behind them is
 		// left over from earlier reads and must not be looked at.
 		end := idx + n
-		if isEOF(err) {
+		if err == io.EOF {
 			// There are no more bytes to read, so we must now consume all bytes in the
 			// buffer.
 			tgt = end
@@ -228,7 +224,7 @@ func tokenizeStream(src io.Reader, normalize bool, dict *dictionary, updateDict 
 		}
 
 		// Break out if we have consumed all read bytes
-		if isEOF(err) {
+		if err == io.EOF {
 			break
 		}
 
@@ -251,6 +247,22 @@ func tokenizeStream(src io.Reader, normalize bool, dict *dictionary, updateDict 
 	doc.runes = diffWordsToRunes(&doc, 0, doc.size())
 	doc.Norm = doc.normalized()
 	return &doc, nil
+}
+
+// fill reads from src into buf until buf is full or src reports an error, and
+// returns the number of bytes read together with that error. It is io.ReadFull
+// without the two conveniences that hide a failure of the reader from the
+// tokenizer: io.ReadFull reports a short final read as io.ErrUnexpectedEOF -
+// the very error that readers of compressed or framed streams return for a
+// truncated input, so it cannot be taken for the end of the input - and it
+// drops an error that arrives together with the bytes that complete the buffer.
+func fill(src io.Reader, buf []byte) (n int, err error) {
+	for n < len(buf) && err == nil {
+		var m int
+		m, err = src.Read(buf[n:])
+		n += m
+	}
+	return n, err
 }
 
 func appendToDoc(doc *indexedDocument, dict *dictionary, line int, in []tokenID, ld *dictionary, normalize bool, updateDict bool, linebuf []tokenID) {
